@@ -188,6 +188,8 @@ DivRule(a, b) == I("divrule", a, b, E1)
 SqrtRule(a) == I("sqrtrule", a, 0, E1)
 RecRule(a) == I("recrule", a, 0, E1)
 SqrRule(a) == I("sqrrule", a, 0, E1)
+\* (histories) the object leaf a was in phase 0 - a unit created before the registry was edited, used as an operand
+Old(a) == I("old", a, 0, E1)
 \* kinds of register pairs: "law" - the law says both denote the same unit; "twin" - the same construction twice
 \* (law + same expression + same hash); "probe" - only the semantics of == is looked at
 Pr(i, j, kind) == [i |-> i, j |-> j, kind |-> kind]
@@ -214,7 +216,9 @@ Prog(law, p, q) ==
          <<Mul(2, One), Div(1, One)>>
     [] law = "state" ->   \* run in EVERY phase of a registry history, on terms re-built in the current registry state
          <<Mul(1, 2), Div(5, 3), Simp(6), Coef(7), Coef(6), MulRule(1, 2), DivRule(1, 3), Pow(1, p), Div(12, 3), Simp(13),
-           SqrtRule(5), RecRule(1), SqrRule(2), Div(1, 3), Simp(18), Coef(19), Mul(1, 2), Simp(7), Mul(7, 3), Simp(23), Simp(19)>>
+           SqrtRule(5), RecRule(1), SqrRule(2), Div(1, 3), Simp(18), Coef(19), Mul(1, 2), Simp(7), Mul(7, 3), Simp(23), Simp(19),
+           \* r = (u as created before the edits) / (u now): expression 1, scale old/new - as right and left operand
+           Old(1), Div(26, 1), Mul(2, 27), Mul(27, 2), Div(2, 27), Pow(27, EM1), Mul(2, 31), Mul(5, 27), Div(28, 3), Div(27, 3), Mul(2, 35)>>
     [] law = "coef" ->    \* operations ON forms that already carry a numeric coefficient: t = (u*v/w).simplify() ;
                           \* simplify again, as_coeff_unit, t*v, t/u, t**p (p integral), the rules with t as an operand
          <<Mul(1, 2), Div(5, 3), Simp(6), Simp(7), Coef(8), Mul(7, 2), Simp(10), Div(7, 1), Simp(12), Coef(13),
@@ -235,7 +239,8 @@ Pairs(law) ==
     [] law = "eqsem" -> <<Pr(1, 2, "probe"), Pr(1, 5, "probe"), Pr(6, 2, "probe"), Pr(1, 1, "law"), Pr(2, 2, "law")>>
     [] law = "state" -> <<Pr(7, 6, "law"), Pr(14, 13, "law"), Pr(19, 18, "law"), Pr(5, 21, "twin"), Pr(8, 6, "probe"),
                           Pr(20, 18, "probe"), Pr(10, 5, "probe"), Pr(11, 18, "probe"), Pr(1, 3, "probe"), Pr(17, 2, "probe"),
-                          Pr(22, 6, "law"), Pr(24, 23, "law"), Pr(25, 18, "law")>>
+                          Pr(22, 6, "law"), Pr(24, 23, "law"), Pr(25, 18, "law"),
+                          Pr(28, 29, "law"), Pr(30, 32, "law"), Pr(34, 36, "law"), Pr(26, 1, "probe")>>
     [] law = "coef" -> <<Pr(7, 6, "law"), Pr(8, 6, "law"), Pr(8, 7, "law"), Pr(11, 10, "law"), Pr(13, 12, "law"), Pr(16, 15, "law"),
                          Pr(20, 1, "law"), Pr(21, 1, "law"), Pr(24, 23, "law"), Pr(25, 23, "law"), Pr(9, 6, "probe"), Pr(17, 15, "probe"),
                          Pr(22, 1, "probe"), Pr(14, 12, "probe"), Pr(26, 10, "law"), Pr(28, 18, "probe")>>
@@ -274,12 +279,23 @@ HomOk(W, k) ==
 \* to (scale, dimension) through the registry's table).  Only when all leaves live in one registry.
 \* (sympy treats every unit symbol as positive: with the negative-scale row "lat" the expression of (lat**2)**(1/2) is lat
 \*  although the scale is |lat| - a fact of arithmetic, not of the implementation; positive leaves only)
-SyncApplies(W, u) == IsUnit(u) /\ Homog(W) /\ u.reg = W.regs[1].reg /\ ~u.alien /\ LeavesPositive(W)
-SyncOk(W, u) ==
-  SyncApplies(W, u) =>
-    /\ DotV(u.ex, W.adim) = u.dim
-    /\ u.syncerr <= LawTol
-    /\ W.exact => (u.lgok /\ RAdd(u.clg, Dot(u.ex, W.alg)) = u.lg)
+\* the equations themselves
+SyncEq(W, u) ==
+  /\ DotV(u.ex, W.adim) = u.dim
+  /\ u.syncerr <= LawTol
+  /\ W.exact => (u.lgok /\ RAdd(u.clg, Dot(u.ex, W.alg)) = u.lg)
+\* A leaf may be GIVEN with a scale its expression does not resolve to (Unit(expr, base_value=..., dimensions=...), e.g. a
+\* dimensionless unit with expression 1 and scale 1/2): such operands are legitimate units of the algebra - every other
+\* clause applies to them - but what they are built into cannot denote its scale through the table, so Sync is asked
+\* only when every leaf is itself in sync.
+LeavesSynced(W) == \A r \in 1..3 : (IsUnit(W.regs[r]) /\ ~W.regs[r].alien) => SyncEq(W, W.regs[r])
+SyncApplies(W, u) == IsUnit(u) /\ Homog(W) /\ u.reg = W.regs[1].reg /\ ~u.alien /\ LeavesPositive(W) /\ LeavesSynced(W)
+SyncOk(W, u) == SyncApplies(W, u) => SyncEq(W, u)
+\* in a registry history the instructions from the first "old" on work with an object created BEFORE the edit (it keeps
+\* its scale: its expression no longer denotes it in the current table); Sync is asked of the results before that point
+RECURSIVE OldStartFrom(_, _)
+OldStartFrom(prog, k) == IF k > Len(prog) THEN k ELSE IF prog[k].op = "old" THEN k ELSE OldStartFrom(prog, k + 1)
+OldStart(prog) == OldStartFrom(prog, 1)
 
 \* C05_Law: two constructions the laws identify denote the same unit and compare equal
 PairBoth(W, pr) == IsUnit(W.regs[pr.i]) /\ IsUnit(W.regs[pr.j])
@@ -310,7 +326,7 @@ HashOk(W, pr) ==
 \* (one registry; the first failing operation only: its operands did return)
 ClosedOk(W, k) ==
   LET ins == Sem(W.prog[k]) IN
-  (LeavesPlain(W) /\ Homog(W) /\ IsUnit(W.regs[ins.a]) /\ (ins.b # 0 => IsUnit(W.regs[ins.b]))) => IsUnit(Res(W, k))
+  (ins.op # "old" /\ LeavesPlain(W) /\ Homog(W) /\ IsUnit(W.regs[ins.a]) /\ (ins.b # 0 => IsUnit(W.regs[ins.b]))) => IsUnit(Res(W, k))
 \* C05_Simplify / C05_Coeff: the returned form denotes the same unit as before
 SimpOk(W, k) ==
   LET ins == W.prog[k] res == Res(W, k) IN
@@ -336,7 +352,7 @@ CurrentOk(W, r) == W.hist => SyncOk(W, W.regs[r])
 \* the failing clauses of a run, as a set of records (empty = C05 holds on this run)
 Fails(W) ==
   {[clause |-> "Hom", at |-> k] : k \in {x \in DOMAIN W.prog : ~HomOk(W, x)}}
-  \cup {[clause |-> "Sync", at |-> k] : k \in {x \in DOMAIN W.prog : ~SyncOk(W, Res(W, x))}}
+  \cup {[clause |-> "Sync", at |-> k] : k \in {x \in DOMAIN W.prog : x < OldStart(W.prog) /\ ~SyncOk(W, Res(W, x))}}
   \cup {[clause |-> "Closed", at |-> k] : k \in {x \in DOMAIN W.prog : ~ClosedOk(W, x)}}
   \cup {[clause |-> "Denote", at |-> k] : k \in {x \in DOMAIN W.prog : ~SimpOk(W, x)}}
   \cup {[clause |-> "Rule", at |-> k] : k \in {x \in DOMAIN W.prog : ~RuleOk(W, x)}}
